@@ -4,6 +4,8 @@ import (
 	"fmt"
 	"go/token"
 	"go/types"
+	"os"
+	"sort"
 	"strings"
 	"unicode"
 	"unicode/utf16"
@@ -2979,6 +2981,7 @@ func objectCases() []objectCase {
 		{"<</S<41>/T<</U(v)>>>>", map[string]any{"S": "A", "T": map[string]any{"U": "v"}}, false},
 		{"12 0 R", pdfRef{12, 0}, true}, {"[1 0 R 2 5 R]", []any{pdfRef{1, 0}, pdfRef{2, 5}}, true}, {"<</P 3 0 R/N 4>>", map[string]any{"P": pdfRef{3, 0}, "N": int64(4)}, true}, {"[1 2 3 0 R]", []any{int64(1), pdfRef{2, 3 - 3}, nil}[:0], true},
 		{"[1 2 % last\n]", []any{int64(1), int64(2)}, false}, {"[% only\n]", []any{}, false}, {"[[1 % in\r\n] 2]", []any{[]any{int64(1)}, int64(2)}, false}, {"<</A 1 % c\n>>", map[string]any{"A": int64(1)}, false}, {"<</A % c\n 1>>", map[string]any{"A": int64(1)}, false},
+		{"[1 %c\n 0 %c\n R]", []any{pdfRef{1, 0}}, true}, {"<</K 1 %c\n 0 R>>", map[string]any{"K": pdfRef{1, 0}}, true}, {"7 % gen follows\r\n 2 R", pdfRef{7, 2}, true},
 		{"[1 % comment\n 2]", []any{int64(1), int64(2)}, false}, {"% lead\n42", int64(42), false}, {"[(a)%c\r\n(b)]", []any{"a", "b"}, false},
 	}
 	// drop the placeholder case built above only to keep the literal compact
@@ -3319,4 +3322,688 @@ outer:
 		return
 	}
 	c.Check(bad == "", R, "internal/filters.applyPredictor#spec", fn.Pos(), fmt.Sprintf("%d images evaluated", n), "a predictor does not invert its encoding: "+bad)
+}
+
+// ---------------------------------------------------------------------------------------------------------------
+// R9.11 the layout detectors, read on synthetic pages: the text that comes out is the text that went in.
+
+type synthFragment struct {
+	text          string
+	x, y, w, h, f float64
+}
+
+// synthPages builds the pages of the evaluation: every fragment is at least 12 points wide and every line at least
+// 60, so that the two recorded findings (lines under 5pt, blocks under 10x5pt) are not what is measured here.
+func synthPages() map[string][]synthFragment {
+	pages := map[string][]synthFragment{}
+	word := func(i int) string {
+		ws := []string{"alpha", "beta", "gamma", "delta", "epsilon", "zeta", "eta", "theta", "iota", "kappa", "lambda", "mu", "nu", "xi", "omicron", "pi", "rho", "sigma", "tau", "upsilon", "phi", "chi", "psi", "omega"}
+		return fmt.Sprintf("%s%d", ws[i%len(ws)], i)
+	}
+	line := func(out *[]synthFragment, k *int, x0, y, size float64, words int) {
+		x := x0
+		for i := 0; i < words; i++ {
+			t := word(*k)
+			*k++
+			w := float64(len(t)) * size * 0.5
+			*out = append(*out, synthFragment{t, x, y, w, size, size})
+			x += w + size*0.3
+		}
+	}
+	// one column, ragged lines, a short last line
+	{
+		var fr []synthFragment
+		k := 0
+		for l := 0; l < 7; l++ {
+			n := 5
+			if l == 6 {
+				n = 2
+			}
+			line(&fr, &k, 72, 700-float64(l)*14, 10, n)
+		}
+		pages["one column"] = fr
+	}
+	// two columns with a spanning title in a larger size
+	{
+		var fr []synthFragment
+		k := 100
+		fr = append(fr, synthFragment{"Spanning", 150, 740, 120, 20, 20}, synthFragment{"Title", 280, 740, 70, 20, 20})
+		for l := 0; l < 8; l++ {
+			line(&fr, &k, 60, 690-float64(l)*14, 10, 3)
+			line(&fr, &k, 330, 690-float64(l)*14, 10, 3)
+		}
+		pages["two columns and a title"] = fr
+	}
+	// a heading, two paragraphs separated by a gap, and a list
+	{
+		var fr []synthFragment
+		k := 200
+		fr = append(fr, synthFragment{"Heading", 72, 720, 90, 16, 16}, synthFragment{"One", 170, 720, 40, 16, 16})
+		y := 690.0
+		for l := 0; l < 3; l++ {
+			line(&fr, &k, 72, y, 10, 5)
+			y -= 14
+		}
+		y -= 14
+		for l := 0; l < 3; l++ {
+			line(&fr, &k, 72, y, 10, 4)
+			y -= 14
+		}
+		y -= 14
+		for l := 0; l < 3; l++ {
+			fr = append(fr, synthFragment{"•", 72, y, 12, 10, 10})
+			line(&fr, &k, 90, y, 10, 3)
+			y -= 14
+		}
+		pages["heading, paragraphs and a list"] = fr
+	}
+	// single-word lines of different widths
+	{
+		var fr []synthFragment
+		k := 300
+		for l := 0; l < 6; l++ {
+			t := word(k) + word(k+1)
+			k += 2
+			fr = append(fr, synthFragment{t, 72, 700 - float64(l)*14, float64(len(t)) * 5, 10, 10})
+		}
+		pages["single-word lines"] = fr
+	}
+	// three columns
+	{
+		var fr []synthFragment
+		k := 400
+		for l := 0; l < 6; l++ {
+			for c := 0; c < 3; c++ {
+				line(&fr, &k, 50+float64(c)*180, 700-float64(l)*14, 10, 2)
+			}
+		}
+		pages["three columns"] = fr
+	}
+	// a numbered list with a hanging indent under a full-width title whose first word stands over the gutter
+	{
+		var fr []synthFragment
+		k := 500
+		fr = append(fr, synthFragment{"Overview", 80, 740, 60, 14, 14}, synthFragment{"of", 150, 740, 20, 14, 14}, synthFragment{"the", 180, 740, 30, 14, 14}, synthFragment{"method", 220, 740, 60, 14, 14})
+		for l := 0; l < 5; l++ {
+			y := 700 - float64(l)*14
+			fr = append(fr, synthFragment{fmt.Sprintf("%d.", l+1), 72, y, 14, 10, 10})
+			line(&fr, &k, 108, y, 10, 5)
+		}
+		pages["hanging-indent list under a title"] = fr
+	}
+	// two columns: two paragraphs with a blank band on the left, a sub-heading level with that band on the right
+	{
+		var fr []synthFragment
+		k := 600
+		y := 700.0
+		for l := 0; l < 3; l++ {
+			line(&fr, &k, 60, y, 10, 3)
+			y -= 14
+		}
+		y -= 28
+		for l := 0; l < 3; l++ {
+			line(&fr, &k, 60, y, 10, 3)
+			y -= 14
+		}
+		y = 700
+		for l := 0; l < 2; l++ {
+			line(&fr, &k, 330, y, 10, 3)
+			y -= 14
+		}
+		y -= 22
+		fr = append(fr, synthFragment{"Subheading", 330, y, 110, 16, 16}, synthFragment{"here", 448, y, 44, 16, 16})
+		y -= 24
+		for l := 0; l < 3; l++ {
+			line(&fr, &k, 330, y, 10, 3)
+			y -= 14
+		}
+		pages["two columns, sub-heading beside a gap"] = fr
+	}
+	// two columns with a bulleted list that continues across the column break
+	{
+		var fr []synthFragment
+		k := 700
+		y := 700.0
+		for l := 0; l < 3; l++ {
+			line(&fr, &k, 60, y, 10, 3)
+			y -= 14
+		}
+		for l := 0; l < 2; l++ {
+			y -= 10
+			fr = append(fr, synthFragment{"•", 60, y, 12, 10, 10})
+			line(&fr, &k, 78, y, 10, 2)
+			y -= 14
+		}
+		y = 700
+		for l := 0; l < 2; l++ {
+			fr = append(fr, synthFragment{"•", 330, y, 12, 10, 10})
+			line(&fr, &k, 348, y, 10, 2)
+			y -= 24
+		}
+		for l := 0; l < 3; l++ {
+			line(&fr, &k, 330, y, 10, 3)
+			y -= 14
+		}
+		pages["a list across the column break"] = fr
+	}
+	// a short line, a pull quote in large type to its right, and a line that runs under both
+	{
+		var fr []synthFragment
+		k := 800
+		line(&fr, &k, 72, 700, 10, 2)
+		fr = append(fr, synthFragment{"Pull", 260, 694, 70, 24, 24}, synthFragment{"quote", 340, 694, 90, 24, 24})
+		line(&fr, &k, 72, 686, 10, 7)
+		line(&fr, &k, 72, 672, 10, 7)
+		pages["a pull quote beside body lines"] = fr
+	}
+	return pages
+}
+
+func sortedNonSpace(s string) string {
+	r := []rune(nonSpace(s))
+	sort.Slice(r, func(i, j int) bool { return r[i] < r[j] })
+	return string(r)
+}
+
+// R9.11 [C09]
+func ruleLayoutKeepsCharactersEvaluated(c *eng.Ctx) {
+	const R = "R9.11-LAYOUT-KEEPS-CHARACTERS-EVALUATED"
+	c.Rule(R, "the line, column, paragraph, block and reading-order detectors of package layout with their default configuration, and the Analyzer, evaluated on synthetic pages (one column with ragged lines, two columns under a spanning title, a heading with paragraphs and a list, single-word lines, three columns, a hanging-indent list under a title, a sub-heading beside a gap of the other column, a list across a column break, a pull quote beside body lines; every line wider than the two recorded size filters): the text the result renders (GetText), the fragments it hands out (GetAllFragments) and the elements of the analysis hold, as a multiset, exactly the non-white-space characters of the fragments", 1, 0)
+	fragT := c.P.NamedType("text", "TextFragment")
+	if fragT == nil {
+		c.Ok(R, "layout#detectors", token.NoPos, "text.TextFragment not found: not evaluated")
+		return
+	}
+	pages := synthPages()
+	var names []string
+	for n := range pages {
+		names = append(names, n)
+	}
+	sort.Strings(names)
+	mkFrags := func(fr []synthFragment) *eng.ESlice {
+		var els []any
+		for _, f := range fr {
+			v := eng.ZeroOf(fragT).(*eng.EStruct)
+			eng.SetField(v, fragT, "Text", f.text)
+			eng.SetField(v, fragT, "X", f.x)
+			eng.SetField(v, fragT, "Y", f.y)
+			eng.SetField(v, fragT, "Width", f.w)
+			eng.SetField(v, fragT, "Height", f.h)
+			eng.SetField(v, fragT, "FontSize", f.f)
+			eng.SetField(v, fragT, "FontName", "F1")
+			els = append(els, v)
+		}
+		return eng.SliceOf(els...)
+	}
+	evaluatedAny := false
+	for _, d := range []struct{ ctor, detect string }{
+		{"layout.NewAnalyzer", "layout.(*Analyzer).Analyze"},
+		{"layout.NewLineDetector", "layout.(*LineDetector).Detect"},
+		{"layout.NewColumnDetector", "layout.(*ColumnDetector).Detect"},
+		{"layout.NewParagraphDetector", "layout.(*ParagraphDetector).DetectFromFragments"},
+		{"layout.NewBlockDetector", "layout.(*BlockDetector).Detect"},
+		{"layout.NewReadingOrderDetector", "layout.(*ReadingOrderDetector).Detect"},
+	} {
+		ctor, det := c.P.FuncExact(d.ctor), c.P.FuncExact(d.detect)
+		if ctor == nil || det == nil || len(ctor.Params) != 0 || len(det.Params) != 4 {
+			c.Ok(R, d.detect, token.NoPos, "constructor or Detect(fragments, width, height) not found: not evaluated")
+			continue
+		}
+		n, bad, skipped := 0, "", ""
+		perPage := map[string]string{}
+		for _, pn := range names {
+			bad = ""
+			ev := eng.NewEvaluator()
+			ev.Steps = 6000000
+			ev.MaxDepth = 40
+			obj, err := ev.Call(ctor, nil, 0)
+			var res any
+			if err == nil {
+				res, err = ev.Call(det, []any{obj, mkFrags(pages[pn]), 612.0, 792.0}, 0)
+			}
+			var text any
+			if err == nil {
+				rp, ok := res.(*eng.EPtr)
+				if !ok || rp == nil {
+					skipped = "the result is not a pointer to a layout"
+					break
+				}
+				ifc := &eng.EIface{T: det.Signature.Results().At(0).Type(), V: rp}
+				text, err = ev.Method(det.Prog, ifc, "GetText")
+			}
+			if err != nil && !err.Panic {
+				if strings.Contains(err.Msg, "step budget") {
+					n++
+					perPage[pn] = fmt.Sprintf("page %q: the detection does not end", pn)
+					continue
+				}
+				skipped = fmt.Sprintf("page %q: %s", pn, err.Msg)
+				break
+			}
+			n++
+			if err != nil {
+				perPage[pn] = fmt.Sprintf("page %q: %s", pn, err.Msg)
+				continue
+			}
+			out, _ := text.(string)
+			in := ""
+			for _, f := range pages[pn] {
+				in += f.text
+			}
+			// the fragments the result hands out (lines, blocks), and the elements of an analysis
+			if rp, ok := res.(*eng.EPtr); ok && bad == "" {
+				ifc := &eng.EIface{T: det.Signature.Results().At(0).Type(), V: rp}
+				if all, err := ev.Method(det.Prog, ifc, "GetAllFragments"); err == nil {
+					if sl, ok := all.(*eng.ESlice); ok {
+						joined := ""
+						for _, l := range sl.L {
+							if st, ok := l.V.(*eng.EStruct); ok && len(st.F) > 0 {
+								t, _ := st.F[0].(string)
+								joined += t
+							}
+						}
+						if sortedNonSpace(joined) != sortedNonSpace(in) {
+							bad = fmt.Sprintf("page %q: the fragments handed out by GetAllFragments do not hold the characters of the input once each (%d characters out, %d in)", pn, len(nonSpace(joined)), len(nonSpace(in)))
+						}
+					}
+				}
+				if rs, ok := rp.Get().(*eng.EStruct); ok && strings.HasSuffix(d.detect, "Analyze") {
+					rt := det.Signature.Results().At(0).Type().Underlying().(*types.Pointer).Elem()
+					if st, ok := rt.Underlying().(*types.Struct); ok {
+						for i := 0; i < st.NumFields(); i++ {
+							if st.Field(i).Name() != "Elements" {
+								continue
+							}
+							els, ok := rs.F[i].(*eng.ESlice)
+							if !ok {
+								continue
+							}
+							joined := ""
+							for _, l := range els.L {
+								el, ok := l.V.(*eng.EStruct)
+								if !ok {
+									continue
+								}
+								et := st.Field(i).Type().Underlying().(*types.Slice).Elem().Underlying().(*types.Struct)
+								for j := 0; j < et.NumFields(); j++ {
+									if et.Field(j).Name() == "Text" {
+										t, _ := el.F[j].(string)
+										joined += t
+									}
+								}
+							}
+							if sortedNonSpace(joined) != sortedNonSpace(in) {
+								what := ""
+								for _, f := range pages[pn] {
+									if k := strings.Count(nonSpace(joined), nonSpace(f.text)); k != 1 && len(nonSpace(f.text)) > 2 {
+										what = fmt.Sprintf("the fragment %q appears %d times in the elements", f.text, k)
+										break
+									}
+								}
+								bad = fmt.Sprintf("page %q: the analysis elements do not hold the characters of the fragments once each (%s)", pn, what)
+							}
+						}
+					}
+				}
+				if bad != "" {
+					perPage[pn] = bad
+					continue
+				}
+			}
+			if sortedNonSpace(out) != sortedNonSpace(in) {
+				// name a fragment that is missing or duplicated
+				what := ""
+				for _, f := range pages[pn] {
+					if k := strings.Count(nonSpace(out), nonSpace(f.text)); k != 1 && nonSpace(f.text) != "•" {
+						what = fmt.Sprintf("the fragment %q appears %d times in the text", f.text, k)
+						break
+					}
+				}
+				bad = fmt.Sprintf("page %q: the rendered text does not hold the characters of the fragments (%s)", pn, what)
+			}
+			perPage[pn] = bad
+		}
+		if os.Getenv("VDEBUG") != "" {
+			fmt.Fprintf(os.Stderr, "R9.11 %s n=%d perPage=%q skipped=%q\n", d.detect, n, perPage, skipped)
+		}
+		if skipped != "" {
+			c.Ok(R, d.detect, det.Pos(), "not evaluated: "+skipped)
+			continue
+		}
+		evaluatedAny = true
+		for _, pn := range names {
+			msg, done := perPage[pn]
+			if !done {
+				continue
+			}
+			c.Check(msg == "", R, d.detect+"#characters@"+pn, det.Pos(), "the characters of the page come out once each", "the detector loses, invents or duplicates text: "+msg)
+		}
+	}
+	_ = evaluatedAny
+}
+
+// ---------------------------------------------------------------------------------------------------------------
+// R9.12 the plain-text assembly of the content-stream extractor, read on fragment sets.
+
+// R9.12 [C09]
+func ruleExtractorTextKeepsCharactersEvaluated(c *eng.Ctx) {
+	const R = "R9.12-EXTRACTOR-TEXT-KEEPS-CHARACTERS-EVALUATED"
+	c.Rule(R, "text.(*Extractor).GetText and GetFragments, evaluated on an extractor holding a given fragment list - left-to-right lines, a right-to-left line that ends (at its left edge) with left-to-right words, character-level fragments in 7pt type with doubled narrow glyphs, and a page whose fragments are all present twice at the same positions: the text holds exactly the non-white-space characters of the distinct fragments (removing a copy at the same position is the only sanctioned removal)", 1, 0)
+	get := c.P.FuncExact("text.(*Extractor).GetText")
+	frs := c.P.FuncExact("text.(*Extractor).GetFragments")
+	fragT := c.P.NamedType("text", "TextFragment")
+	extT := c.P.NamedType("text", "Extractor")
+	pk := c.P.ByPath["text"]
+	if get == nil || fragT == nil || extT == nil || pk == nil {
+		c.Ok(R, "text.(*Extractor).GetText", token.NoPos, "extractor or fragment type not found: not evaluated")
+		return
+	}
+	dirOf := func(name string) int64 {
+		if cn, ok := pk.Types.Scope().Lookup(name).(*types.Const); ok {
+			v, _ := eng.ConstInt64(cn.Val())
+			return v
+		}
+		return 0
+	}
+	ltr, rtl := dirOf("LTR"), dirOf("RTL")
+	type fr struct {
+		text      string
+		x, y, w   float64
+		size      float64
+		direction int64
+	}
+	sets := map[string][]fr{}
+	{
+		var l []fr
+		words := []string{"The", "quick", "brown", "fox", "jumps", "over", "the", "lazy", "dog", "again", "and", "again"}
+		for i, w := range words {
+			l = append(l, fr{w, 72 + float64(i%4)*60, 700 - float64(i/4)*14, float64(len(w)) * 5, 10, ltr})
+		}
+		sets["left-to-right lines"] = l
+	}
+	{
+		// visual order left to right: two Latin words at the left edge, then four Arabic words
+		l := []fr{{"Windows", 72, 700, 50, 10, ltr}, {"Server", 126, 700, 40, 10, ltr}, {"نظام", 180, 700, 30, 10, rtl}, {"تشغيل", 214, 700, 36, 10, rtl}, {"حديث", 254, 700, 30, 10, rtl}, {"هذا", 288, 700, 24, 10, rtl}}
+		sets["right-to-left line ending with left-to-right words"] = l
+	}
+	{
+		var l []fr
+		x := 72.3
+		for _, ch := range "still will fill all shells" {
+			if ch == ' ' {
+				x += 2.5
+				continue
+			}
+			w := 3.2
+			if ch == 'l' || ch == 'i' || ch == 't' {
+				w = 1.6
+			}
+			l = append(l, fr{string(ch), x, 700, w, 7, ltr})
+			x += w
+		}
+		sets["character-level 7pt type with doubled narrow glyphs"] = l
+	}
+	{
+		base := sets["left-to-right lines"]
+		l := append([]fr(nil), base...)
+		l = append(l, base...)
+		sets["every fragment twice at the same position"] = l
+	}
+	var names []string
+	for n := range sets {
+		names = append(names, n)
+	}
+	sort.Strings(names)
+	for _, fn := range []*ssa.Function{get, frs} {
+		if fn == nil {
+			continue
+		}
+		skipped := ""
+		results := map[string]string{}
+		for _, sn := range names {
+			var els []any
+			distinct := map[string]bool{}
+			want := ""
+			for _, f := range sets[sn] {
+				v := eng.ZeroOf(fragT).(*eng.EStruct)
+				eng.SetField(v, fragT, "Text", f.text)
+				eng.SetField(v, fragT, "X", f.x)
+				eng.SetField(v, fragT, "Y", f.y)
+				eng.SetField(v, fragT, "Width", f.w)
+				eng.SetField(v, fragT, "Height", f.size)
+				eng.SetField(v, fragT, "FontSize", f.size)
+				eng.SetField(v, fragT, "FontName", "F1")
+				eng.SetField(v, fragT, "Direction", f.direction)
+				els = append(els, v)
+				k := fmt.Sprintf("%s@%.1f,%.1f", f.text, f.x, f.y)
+				if !distinct[k] {
+					distinct[k] = true
+					want += f.text
+				}
+			}
+			ext := eng.ZeroOf(extT).(*eng.EStruct)
+			if !eng.SetField(ext, extT, "fragments", eng.SliceOf(els...)) {
+				skipped = "the extractor has no field 'fragments'"
+				break
+			}
+			loc := &eng.ELoc{V: ext}
+			recv := &eng.EPtr{Get: func() any { return loc.V }, Set: func(v any) { loc.V = v }, Loc: loc}
+			ev := eng.NewEvaluator()
+			ev.Steps = 3000000
+			got, err := ev.Call(fn, []any{recv}, 0)
+			if err != nil && !err.Panic {
+				skipped = fmt.Sprintf("%s: %s", sn, err.Msg)
+				break
+			}
+			if err != nil {
+				results[sn] = err.Msg
+				continue
+			}
+			out := ""
+			switch v := got.(type) {
+			case string:
+				out = v
+			case *eng.ESlice:
+				for _, l := range v.L {
+					if st, ok := l.V.(*eng.EStruct); ok && len(st.F) > 0 {
+						t, _ := st.F[0].(string)
+						out += t
+					}
+				}
+			}
+			results[sn] = ""
+			if sortedNonSpace(out) != sortedNonSpace(want) {
+				what := ""
+				for _, f := range sets[sn] {
+					if len(f.text) > 2 && strings.Count(nonSpace(out), f.text) != 1 {
+						what = fmt.Sprintf(": the fragment %q appears %d times", f.text, strings.Count(nonSpace(out), f.text))
+						break
+					}
+				}
+				results[sn] = fmt.Sprintf("%d non-white-space characters come out, the distinct fragments hold %d%s", len([]rune(nonSpace(out))), len([]rune(nonSpace(want))), what)
+			}
+		}
+		name := eng.FuncName(fn)
+		if os.Getenv("VDEBUG") != "" {
+			fmt.Fprintf(os.Stderr, "R9.12 %s results=%q skipped=%q\n", name, results, skipped)
+		}
+		if skipped != "" {
+			c.Ok(R, name, fn.Pos(), "not evaluated: "+skipped)
+			continue
+		}
+		for _, sn := range names {
+			msg, done := results[sn]
+			if !done {
+				continue
+			}
+			c.Check(msg == "", R, name+"#characters@"+sn, fn.Pos(), "the characters of the distinct fragments come out once each", "the extractor's text loses, invents or duplicates characters ("+sn+"): "+msg)
+		}
+	}
+}
+
+// ---------------------------------------------------------------------------------------------------------------
+// R4.15 the classic cross-reference section, read in its legal spellings.
+
+// R4.15 [C04, C01]
+func ruleClassicXRefSpellingsEvaluated(c *eng.Ctx) {
+	const R = "R4.15-CLASSIC-XREF-SPELLINGS-EVALUATED"
+	c.Rule(R, "core.NewXRefParser(r).ParseXRefFromEOF, evaluated on a small file with a classic cross-reference section written with LF, CR LF and CR line endings, with the trailer dictionary on the line after the keyword, on the keyword's line, and spread over lines with a nested dictionary, in one subsection and in two: the table holds the offset, generation and in-use flag of every entry and the trailer's /Size and /Root", 1, 0)
+	newP := c.P.FuncExact("core.NewXRefParser")
+	parse := c.P.FuncExact("core.(*XRefParser).ParseXRefFromEOF")
+	tabT := c.P.NamedType("core", "XRefTable")
+	entT := c.P.NamedType("core", "XRefEntry")
+	if newP == nil || parse == nil || tabT == nil || entT == nil || len(newP.Params) != 1 || len(parse.Params) != 1 {
+		c.Ok(R, "core.(*XRefParser).ParseXRefFromEOF", token.NoPos, "parser entry points not found: not evaluated")
+		return
+	}
+	fieldIdx := func(t types.Type, name string) int {
+		st, ok := t.Underlying().(*types.Struct)
+		if !ok {
+			return -1
+		}
+		for i := 0; i < st.NumFields(); i++ {
+			if st.Field(i).Name() == name {
+				return i
+			}
+		}
+		return -1
+	}
+	iEntries, iTrailer := fieldIdx(tabT, "Entries"), fieldIdx(tabT, "Trailer")
+	iOff, iGen, iUse := fieldIdx(entT, "Offset"), fieldIdx(entT, "Generation"), fieldIdx(entT, "InUse")
+	if iEntries < 0 || iTrailer < 0 || iOff < 0 || iGen < 0 || iUse < 0 {
+		c.Ok(R, "core.(*XRefParser).ParseXRefFromEOF", parse.Pos(), "table or entry fields not found: not evaluated")
+		return
+	}
+	type variant struct {
+		name           string
+		eol            string
+		trailer        string // text between the last entry and startxref; %EOL% stands for the line ending
+		twoSubsections bool
+	}
+	variants := []variant{
+		{"LF", "\n", "trailer%EOL%<< /Size 3 /Root 1 0 R >>%EOL%", false},
+		{"CR LF", "\r\n", "trailer%EOL%<< /Size 3 /Root 1 0 R >>%EOL%", false},
+		{"CR", "\r", "trailer%EOL%<< /Size 3 /Root 1 0 R >>%EOL%", false},
+		{"trailer dictionary on the keyword's line", "\n", "trailer << /Size 3 /Root 1 0 R >>%EOL%", false},
+		{"trailer dictionary directly after the keyword", "\n", "trailer<</Size 3/Root 1 0 R>>%EOL%", false},
+		{"nested dictionary over several lines", "\n", "trailer%EOL%<< /Info << /Producer (x) >>%EOL%/Size 3%EOL%/Root 1 0 R%EOL%>>%EOL%", false},
+		{"two subsections", "\n", "trailer%EOL%<< /Size 3 /Root 1 0 R >>%EOL%", true},
+	}
+	name := eng.FuncName(parse)
+	results := map[string]string{}
+	skipped := ""
+	for _, v := range variants {
+		e := v.eol
+		var b strings.Builder
+		b.WriteString("%PDF-1.4" + e)
+		off1 := b.Len()
+		b.WriteString("1 0 obj" + e + "<< /Type /Catalog >>" + e + "endobj" + e)
+		off2 := b.Len()
+		b.WriteString("2 0 obj" + e + "(x)" + e + "endobj" + e)
+		xref := b.Len()
+		entry := func(off, gen int, kind string) string {
+			if len(e) == 2 {
+				return fmt.Sprintf("%010d %05d %s%s", off, gen, kind, e)
+			}
+			return fmt.Sprintf("%010d %05d %s %s", off, gen, kind, e)
+		}
+		b.WriteString("xref" + e)
+		if v.twoSubsections {
+			b.WriteString("0 1" + e + entry(0, 65535, "f") + "1 2" + e + entry(off1, 0, "n") + entry(off2, 0, "n"))
+		} else {
+			b.WriteString("0 3" + e + entry(0, 65535, "f") + entry(off1, 0, "n") + entry(off2, 0, "n"))
+		}
+		b.WriteString(strings.ReplaceAll(v.trailer, "%EOL%", e))
+		b.WriteString("startxref" + e + fmt.Sprint(xref) + e + "%%EOF" + e)
+		ev := eng.NewEvaluator()
+		ev.Steps = 2000000
+		p, err := ev.Call(newP, []any{&eng.EBytesReader{Data: []byte(b.String())}}, 0)
+		var got any
+		if err == nil {
+			got, err = ev.Call(parse, []any{p}, 0)
+		}
+		if err != nil && !err.Panic {
+			skipped = fmt.Sprintf("%s: %s", v.name, err.Msg)
+			break
+		}
+		if err != nil {
+			results[v.name] = err.Msg
+			continue
+		}
+		t, ok := got.(eng.ETuple)
+		if !ok || len(t) != 2 {
+			skipped = "ParseXRefFromEOF does not return (table, error)"
+			break
+		}
+		if t[1] != nil {
+			results[v.name] = "the section is refused with an error"
+			continue
+		}
+		tp, ok := t[0].(*eng.EPtr)
+		if !ok || tp == nil {
+			results[v.name] = "no table is returned"
+			continue
+		}
+		tab, ok := tp.Get().(*eng.EStruct)
+		if !ok {
+			skipped = "the table is not readable"
+			break
+		}
+		msg := ""
+		entries, _ := tab.F[iEntries].(*eng.EMap)
+		want := map[int64][3]int64{0: {0, 65535, 0}, 1: {int64(off1), 0, 1}, 2: {int64(off2), 0, 1}}
+		if entries == nil || len(entries.M) != 3 {
+			k := 0
+			if entries != nil {
+				k = len(entries.M)
+			}
+			msg = fmt.Sprintf("%d entries are read, the section has 3", k)
+		} else {
+			for num, w := range want {
+				ep, _ := entries.M[num].(*eng.EPtr)
+				if ep == nil {
+					msg = fmt.Sprintf("object %d has no entry", num)
+					break
+				}
+				es, _ := ep.Get().(*eng.EStruct)
+				if es == nil {
+					msg = fmt.Sprintf("the entry of object %d is not readable", num)
+					break
+				}
+				off, _ := es.F[iOff].(int64)
+				gen, _ := es.F[iGen].(int64)
+				use, _ := es.F[iUse].(bool)
+				u := int64(0)
+				if use {
+					u = 1
+				}
+				if num != 0 && (off != w[0] || gen != w[1] || u != w[2]) || num == 0 && u != 0 {
+					msg = fmt.Sprintf("object %d is read as offset %d, generation %d, in use %v; the section says offset %d, generation %d", num, off, gen, use, w[0], w[1])
+					break
+				}
+			}
+		}
+		if msg == "" {
+			tr, ok := treeOf(&eng.EIface{T: c.P.NamedType("core", "Dict"), V: tab.F[iTrailer]})
+			d, _ := tr.(map[string]any)
+			if !ok || d == nil || d["Size"] != int64(3) || d["Root"] != (pdfRef{1, 0}) {
+				msg = fmt.Sprintf("the trailer is read as %v, it holds /Size 3 and /Root 1 0 R", tr)
+			}
+		}
+		results[v.name] = msg
+	}
+	if os.Getenv("VDEBUG") != "" {
+		fmt.Fprintf(os.Stderr, "R4.15 results=%q skipped=%q\n", results, skipped)
+	}
+	if skipped != "" {
+		c.Ok(R, name, parse.Pos(), "not evaluated: "+skipped)
+		return
+	}
+	for _, v := range variants {
+		msg, done := results[v.name]
+		if !done {
+			continue
+		}
+		c.Check(msg == "", R, name+"#"+v.name, parse.Pos(), "the section is read as written", "a classic cross-reference section in a legal spelling ("+v.name+") is not read as written: "+msg)
+	}
 }
